@@ -42,6 +42,11 @@ pub mod channel;
 pub(crate) mod channel;
 
 pub mod onion_utils;
+// Verification hooks that need `pub(super)` items of this module (compiled only with `_verif`).
+#[cfg(feature = "_verif")]
+#[allow(missing_docs)]
+#[path = "../verif/onion.rs"]
+pub mod verif_onion;
 pub mod outbound_payment;
 pub mod wire;
 
